@@ -1098,6 +1098,10 @@ def _sign_zone_nsec(
         apex = zone.origin
 
     for name in sorted(txn.iterate_names()):
+        if not txn.get_node(name):
+            # a node without any rdatasets owns nothing: it gets no NSEC and no
+            # NSEC may point at it
+            continue
         if delegation and name.is_subdomain(delegation):
             # names below delegations are not secure
             continue
